@@ -22,7 +22,9 @@ def bounds(tier):
     return {"timing": "DISCOVERY_INITIAL_TIMEOUT 0.25 s, DISCOVERY_TIMEOUT 0.55 s of virtual time (<= 6 polls): values of the "
                       "mutable GeckoConfig object",
             "replies": f"<= {2 if q else 3} replies, each arriving before poll 0 / 2 / 4 or never, from one of two spas "
-                       "(so duplicates and both orders occur), names of 0 or 2 symbolic bytes",
+                       "(so duplicates and both orders occur), names: empty, 2 symbolic bytes, a latin-1 name whose bytes are "
+                       "valid UTF-8, a name with two separators; the locator runs on a live AsyncTasks manager whose tidy "
+                       "pass falls inside the run",
             "filters": "none / identifier / address / identifier of a spa that never answers"}
 
 
@@ -45,6 +47,10 @@ def discover(maxreplies):
         from geckolib.async_tasks import AsyncTasks
         from geckolib.config import GeckoConfig
         saved = (GeckoConfig.DISCOVERY_INITIAL_TIMEOUT_IN_SECONDS, GeckoConfig.DISCOVERY_TIMEOUT_IN_SECONDS)
+        saved_tidy = GeckoConfig.TASK_TIDY_FREQUENCY_IN_SECONDS
+        import geckolib.config as gc
+        saved_cc = gc.ConfigChange
+        gc.ConfigChange = None
         GeckoConfig.DISCOVERY_INITIAL_TIMEOUT_IN_SECONDS, GeckoConfig.DISCOVERY_TIMEOUT_IN_SECONDS = INITIAL, TIMEOUT
         loop = VLoop()
         try:
@@ -62,10 +68,15 @@ def discover(maxreplies):
                 for i in range(n):
                     who = sx.choice(f"from{i}", 2)
                     slot = SLOTS[sx.choice(f"slot{i}", len(SLOTS))]
-                    nl = sx.choice(f"namelen{i}", 2) * 2
-                    name = sx.bytes_(f"name{i}", nl)
+                    nk = sx.choice(f"namekind{i}", 4)
+                    if nk < 2:
+                        name = sx.bytes_(f"name{i}", nk * 2)      # empty, or two arbitrary bytes ('|' and >= 0x80 included)
+                    else:
+                        # latin-1 names whose bytes happen to be valid UTF-8 / contain the separator twice
+                        name = [b"Spa 38\xc2\xb0C", b"a|b|c"][nk - 2]
                     plan.append((who, slot, name))
                 tm = AsyncTasks()
+                GeckoConfig.TASK_TIDY_FREQUENCY_IN_SECONDS = 0.15      # a tidy pass falls inside the run
                 events = []
 
                 async def ev(e, **k):
@@ -84,10 +95,22 @@ def discover(maxreplies):
                         if t == 0.0:
                             proto.datagram_received(data, addr)
                         else:
-                            loop.call_at(t, proto.datagram_received, data, addr)
+                            loop.call_at(loop.time() + t, proto.datagram_received, data, addr)
                 loop.on_endpoint = on_endpoint
-                loop.run_until_complete(loc.discover(), max_time=50.0)
-                t_end = loop.time()
+                ended = []
+
+                async def session():
+                    # the locator runs on a live task manager, as under GeckoAsyncSpaMan
+                    async with tm:
+                        await asyncio.sleep(0.05)      # the manager has been running for a while
+                        t0 = loop.time()
+                        await loc.discover()
+                        ended.append(loop.time() - t0)
+                        await asyncio.sleep(0.5)
+                        left = [t.get_name() for t in tm._tasks if not t.done() and t.get_name().startswith("LOC:")]
+                        ended.append(left)
+                loop.run_until_complete(session(), max_time=50.0)
+                t_end = ended[0]
                 sx.observe("t_end", round(t_end, 3))
                 spas = loc.spas
                 # ---- listing
@@ -149,15 +172,17 @@ def discover(maxreplies):
                 # ---- clean-up
                 tr = loop.endpoints[0][0]
                 sx.check(tr.closed == 1, "dsc.endpoint-closed-once", lambda: str(tr.closed))
-                loop.run_until(lambda: False, max_time=t_end + 0.5)
-                alive = [t.get_name() for t in loop.tasks if not t.done() and t.get_name().startswith("LOC:")]
-                sx.check(not alive, "dsc.no-helper-task-left", lambda: str(alive))
-                sent_after = [s for s in tr.sent if s[2] > t_end + eps]
+                alive = ended[1]
+                alive2 = [t.get_name() for t in loop.tasks if not t.done() and t.get_name().startswith("LOC:")]
+                sx.check(not alive and not alive2, "dsc.no-helper-task-left", lambda: str(alive + alive2))
+                sent_after = [s for s in tr.sent if s[2] > t_end + 0.05 + eps]
                 sx.check(not sent_after, "dsc.no-broadcast-after-return")
                 sx.check(len(tr.sent) >= 1 and tr.sent[0][0] == b"<HELLO>1</HELLO>", "dsc.broadcast-sent")
             loop.cancel_all()
         finally:
             GeckoConfig.DISCOVERY_INITIAL_TIMEOUT_IN_SECONDS, GeckoConfig.DISCOVERY_TIMEOUT_IN_SECONDS = saved
+            GeckoConfig.TASK_TIDY_FREQUENCY_IN_SECONDS = saved_tidy
+            gc.ConfigChange = saved_cc
     return scenario
 
 
